@@ -77,6 +77,45 @@ CHECKS = {
             "drop each input exactly once.",
             "the matrix is finite and enumerated completely; x86_64 only",
             TRACE_TECH % ("VecConvert.tla", "VecTrace.tla"), "7 C10"),
+    "C04": ("lab", "model_checking",
+            "TLC explores every sequence of interface operations (construct fully / from mandatory fields, write, convert x4, unpack, drop) "
+            "on every small two-variant definition produced by the transcribed strategies, executing the generator's templates primitive by "
+            "primitive on byte extents (MCRecord: Link = the buffer stores exactly the values the interface says).  The REAL generated "
+            "modules of the lab (repository examples, hand-written shapes, random definitions), compiled by rustc, execute scripts in debug "
+            "and release builds with hooks and a hook-free release build, records on the stack / in a Box / in a Vec, three capacities; TLC "
+            "validates every event stream: each accessor / unpack result must be the value (serial, payload) the specification holds.",
+            "bounded model; lab definitions and scripts are a sample; values observed through instrumented field types",
+            TRACE_TECH % ("Record.tla, MCRecord.tla", "RecordTrace.tla"), "7 C04"),
+    "C05": ("lab", "model_checking",
+            "Same model (Convert with the four forms, ConvertVals / RemovedVals) and same lab: every chain of forms through all variants "
+            "(4^(V-1), capped), fields dumped after every step, removed data compared by identity.",
+            "same as C04", TRACE_TECH % ("Record.tla, MCRecord.tla", "RecordTrace.tla"), "7 C05"),
+    "C06": ("lab", "model_checking",
+            "Ledger invariants of MCRecord (DestroyedAtMostOnce, LedgerConsistent, NothingLeakedAtQuiescence); on the real code every "
+            "make / clone / destroy event of the instrumented types is validated: a record-owned value may only be destroyed by the "
+            "operation that removes it, must be destroyed by it, nothing is alive at the end of a script.",
+            "same as C04", TRACE_TECH % ("Record.tla, MCRecord.tla", "RecordTrace.tla"), "7 C06"),
+    "C07": ("lab", "model_checking",
+            "NoGuardViolation in MCRecord (every primitive of every template under the guards InBounds / ReadOk / RefOk / WriteOk on every "
+            "enumerated layout); on the real code the hooks report every call of read / write / get / get_mut (offset, type, size, alignment, "
+            "address alignment) and the trace specification replays them on its own extents of the buffer.",
+            "store clause bound textually (classification of RecordMaybeUninit::write); hooked builds only; same sample as C04",
+            TRACE_TECH % ("Record.tla, MCRecord.tla", "RecordTrace.tla"), "7 C07"),
+    "C14": ("lab", "exploration",
+            "Codegen-level rule AutoSend / AutoSync (Record.tla) against a compile-time probe evaluated by rustc on every generated record "
+            "type of the lab; both directions.  The decisive oracle is rustc, the specification supplies the expected answer.",
+            "probe = inherent associated const shadowing a blanket trait const; lab definitions with Rc / Cell / raw pointer / guard-marker fields",
+            "TLC trace validation (spec/RecordTrace.tla, TypeTags) of compile-time auto-trait probes on rustc-compiled generated modules",
+            "7 C14"),
+    "C15": ("lab", "model_checking",
+            "Round trip through serde_json (text and Value) and bincode on every variant of every lab definition with the fragment; inputs "
+            "truncated / corrupted at every position / extended; decoded values tracked by the ledger (no leak after a failed decode); "
+            "encoded elements compared with the fields in declaration order.  The encoding itself is abstracted (sequence of elements).",
+            "same as C04; the record-level model abstracts the encoding", TRACE_TECH % ("Record.tla", "RecordTrace.tla"), "7 C15"),
+    "C16": ("lab", "model_checking",
+            "clone / clone_from / a panic injected in the clone of the k-th tracked field for every k, then mutation / drop of either record "
+            "and inspection of the other; previous contents of a clone-assignment target destroyed exactly once.",
+            "same as C04", TRACE_TECH % ("Record.tla", "RecordTrace.tla"), "7 C16"),
 }
 
 PENDING_REASON = "check not built yet (framework under construction); see DESIGN.md section 7"
@@ -126,6 +165,10 @@ def main():
             {"name": "vec", "path": "tools/vec_pipe.py", "serves_properties": ["C08", "C09", "C10"],
              "kind_free_text": "TLC model checking of spec/VecConvert.tla + TLC trace validation (spec/VecTrace.tla) of "
                                "harness/vec_driver executions (debug/release with hooks, release without)"},
+            {"name": "lab", "path": "tools/lab_pipe.py",
+             "serves_properties": ["C03", "C04", "C05", "C06", "C07", "C13", "C14", "C15", "C16"],
+             "kind_free_text": "TLC model checking of spec/MCRecord.tla + real builder / generate() / rustc on lab definitions "
+                               "(harness/genlab_gen, genlab_run, genlab_compile) + TLC trace validation (spec/RecordTrace.tla)"},
         ],
         "checks": checks,
         "notes": "All checks share cached pipeline stages keyed by the content hash of /repo and /verif sources, tier and seed "
